@@ -51,6 +51,8 @@ def use_repo() -> None:
 
 
 SIGINT_LOG: list = []
+OS_EXIT_LOG: list = []
+REAL_EXIT = os._exit
 
 
 class WrongCopy(Exception):
@@ -177,6 +179,16 @@ def _shard_main(argv: list[str]) -> int:
 
         # in-process worker gateways escalate to SIGINT when execution does not end; record, don't die
         signal.signal(signal.SIGINT, lambda s, f: SIGINT_LOG.append(time.monotonic()))
+        # ... and finally call os._exit(1); in a shard that would take the whole harness down: record it and end
+        # only the calling (receiver) thread instead
+        global REAL_EXIT
+        REAL_EXIT = os._exit
+
+        def _exit_recorder(code=0):
+            OS_EXIT_LOG.append((time.monotonic(), code))
+            raise SystemExit(code)
+
+        os._exit = _exit_recorder
         use_repo()
         mod = __import__("monitors." + modname, fromlist=["x"])
         res = mod.run_shard(spec)
@@ -197,7 +209,7 @@ def _shard_main(argv: list[str]) -> int:
     sys.stdout.flush()
     sys.stderr.flush()
     # threads of torn-down gateways must not keep the shard alive
-    os._exit(0)
+    REAL_EXIT(0)
 
 
 def run_shards(modname: str, specs: list[dict], timeout: float, par: int = NCPU,
